@@ -77,7 +77,7 @@ def step (st : St) (cmd : String) (m : KV) : Option (St × String) :=
   | "dg.sread" => do
     let sid ← getNat m "sid"
     let cap ← getNat m "cap"
-    let (s, o) := st.sess.read sid cap
+    let (s, o) := st.sess.sread sid cap
     pure ({ st with sess := s }, match o with | .r x => showR x | .noStream => "nostream")
   | "dg.sclose" => do
     let sid ← getNat m "sid"
